@@ -23,7 +23,7 @@ M = 'changelog'
 # oracle: deb-changelog(5)
 PKG = r'[a-z0-9][-+0-9a-z.]+'
 VER = r'[0-9A-Za-z.+~:\-]+'
-DISTS = r'[-+0-9a-z.]+(?: [-+0-9a-z.]+)*'
+DISTS = r'[-+0-9A-Za-z.]+(?: [-+0-9A-Za-z.]+)*'      # UNRELEASED, Bookworm-Backports: distribution names are not restricted to lower case
 URG = r'[a-z]+'
 URGC = r'(?: [^,\n]*[^\s,])?'
 KEY = r'(?!urgency)[-0-9a-z]+'      # not used as regex (no look-around support): see KEY_SAFE
